@@ -13,6 +13,7 @@ mod evs;
 mod fam_pipe;
 mod rr;
 mod fam_attempt;
+mod fam_sched;
 
 use std::{collections::BTreeMap, collections::HashSet, fs, io::Write as _, path::Path};
 
@@ -28,6 +29,8 @@ fn families() -> Vec<(&'static str, fn(&mut Rng, usize) -> Case)> {
         ("pipe.summ", fam_pipe::gen_summ),
         ("pipe.verdict", fam_pipe::gen_verdict),
         ("attempt.run", fam_attempt::gen_attempts),
+        ("sched.run", fam_sched::gen_sched_case),
+        ("sched.lazy", fam_sched::gen_sched_lazy_case),
     ]
 }
 
@@ -41,6 +44,8 @@ fn main() {
     let seed: u64 = args[2].parse().expect("seed");
     let count: usize = args[3].parse().expect("count");
     let out = Path::new(&args[4]);
+    // optional 5th argument: run only the case with this index (replay)
+    let only: Option<usize> = args.get(5).and_then(|x| x.parse().ok());
     fs::create_dir_all(out).expect("mkdir");
 
     let fams = families();
@@ -48,6 +53,29 @@ fn main() {
         eprintln!("unknown family {fam}; known: {:?}", fams.iter().map(|f| f.0).collect::<Vec<_>>());
         std::process::exit(2);
     };
+
+    // Watchdog: a poll of the runner that never returns (C04) cannot be interrupted in-process.
+    // If one case takes longer than the limit, record which one and leave with exit code 97.
+    static CASE_STARTED_MS: std::sync::atomic::AtomicU64 = std::sync::atomic::AtomicU64::new(0);
+    static CASE_INDEX: std::sync::atomic::AtomicU64 = std::sync::atomic::AtomicU64::new(0);
+    let t_start = std::time::Instant::now();
+    {
+        let out = out.to_path_buf();
+        let fam = fam.to_owned();
+        std::thread::spawn(move || loop {
+            std::thread::sleep(std::time::Duration::from_millis(200));
+            let started = CASE_STARTED_MS.load(std::sync::atomic::Ordering::SeqCst);
+            let now = t_start.elapsed().as_millis() as u64;
+            if started > 0 && now.saturating_sub(started) > 8_000 {
+                let idx = CASE_INDEX.load(std::sync::atomic::Ordering::SeqCst);
+                let _ = fs::write(
+                    out.join("hang.json"),
+                    format!("{{\"family\": \"{fam}\", \"seed\": {seed}, \"case\": {idx}, \"what\": \"a case did not return within 8 s (the runner's stream never ended or a poll never returned)\"}}"),
+                );
+                std::process::exit(97);
+            }
+        });
+    }
 
     let mut rng = Rng::new(seed);
     let mut req = fs::File::create(out.join("req.txt")).unwrap();
@@ -57,6 +85,9 @@ fn main() {
     let mut samples: Vec<String> = Vec::new();
     for i in 0..count {
         let mut r = rng.fork();
+        CASE_INDEX.store(i as u64, std::sync::atomic::Ordering::SeqCst);
+        CASE_STARTED_MS.store(t_start.elapsed().as_millis() as u64 + 1, std::sync::atomic::Ordering::SeqCst);
+        if only.is_some_and(|o| o != i) { continue; }
         let c = genf(&mut r, i);
         for (rl, il) in c.req.lines().zip(c.imp.lines()) {
             writeln!(req, "{rl}").unwrap();
